@@ -133,6 +133,10 @@ func (encr *EncrAesCbcCrypto) Decrypt(cipherText []byte) ([]byte, error) {
 
 	encryptedMessage := cipherText[aes.BlockSize:]
 
+	if len(encryptedMessage) == 0 {
+		return nil, errors.Errorf("EncrAesCbcCrypto: Cipher text contains no block after the IV")
+	}
+
 	if len(encryptedMessage)%aes.BlockSize != 0 {
 		return nil, errors.Errorf("EncrAesCbcCrypto: Cipher text is not a multiple of block size")
 	}
@@ -147,6 +151,9 @@ func (encr *EncrAesCbcCrypto) Decrypt(cipherText []byte) ([]byte, error) {
 	// fmt.Printf("Decrypted content:\n%s", hex.Dump(plainText))
 	// Remove padding
 	padding := int(plainText[len(plainText)-1]) + 1
+	if padding > len(plainText) {
+		return nil, errors.Errorf("EncrAesCbcCrypto: Pad length %d exceeds the decrypted data", padding-1)
+	}
 	plainText = plainText[:len(plainText)-padding]
 
 	// fmt.Printf("Decrypted content with out padding:\n%s", hex.Dump(plainText))
